@@ -500,6 +500,10 @@ def mutCall (fv : Field) (m : String) (args : List Val) : Except PyErr Field :=
        | [.py v] => (match removeFirst v vs with | some vs' => .ok (.list vs') | none => .error .valueError)
        | [_] => .error (unsupported "list of objects")
        | _ => .error .typeError)
+    else if m = "pop" then
+      (match args with
+       | [] => if vs.isEmpty then .error (.other "IndexError") else .ok (.list vs.dropLast)
+       | _ => .error (unsupported "pop with an argument"))
     else .error (unsupported ("statement method " ++ m))
   | .lock h =>
     if m = "acquire" then
@@ -675,6 +679,10 @@ def builtin (parseInt : Str → Except PyErr Int) (f : String) (args : List Val)
     | [.tuple vs] => .ok (.list vs)
     | [.obj fs] => (match fs.lookup listPart with | some (.list vs) => .ok (.list vs) | _ => .error (unsupported "list"))
     | _ => .error (unsupported "list")
+  else if f = "range" then
+    match args with
+    | [.py (.int n)] => .ok (.tuple ((List.range n.toNat).map (fun i => .int (Int.ofNat i))))
+    | _ => .error (unsupported "range of something else than one integer")
   else .error (.other "NameError")
 
 /-! ### syntax -/
@@ -711,6 +719,8 @@ inductive Expr where
   | compItems (k v : String) (elt d : Expr)             -- [elt for k, v in d.items()]
   | objAttr (o : String) (n : Expr)                     -- object.__getattribute__(o, n): the plain attribute named by `n`
   | outside (what : String)                             -- a call the interpreter does not model: evaluates to an error
+  | elemAttr (e : Expr) (a : String)                    -- e.a, e an item of a list of elements (`l[i].a`): `Ctx.elemAttr`
+  | compFor (x : String) (elt it : Expr)                -- [elt for x in it]
   deriving Repr, Inhabited
 
 /-- Does the expression CREATE the list it evaluates to (so that no other name reaches the same object)? -/
@@ -724,6 +734,7 @@ def Expr.makesNew : Expr → Bool
   | .sliceAll _ => true
   | .construct _ _ => true          -- (a constructor that kept one of its mutable arguments is refused: `callMeth`)
   | .compItems .. => true
+  | .compFor .. => true
   | .call f _ => f = "list"         -- the builtin `list(x)` (the guard `aliasOK` checks that no function of the module hides it)
   | .meth _ m _ => m = "split"      -- `text.split(sep)` (a method of `self` never returns a mutable object: `eval`)
   | _ => false
@@ -756,6 +767,7 @@ inductive Stmt where
   | alias (x o f : String)                              -- x = o.f, making x a second name of the object in the field
   | setItemRef (x : String) (k v : Expr)                -- x[k] = v, x such a second name (of a dict)
   | delItemRef (x : String) (k : Expr)                  -- del x[k], x such a second name (of a dict)
+  | refCall (x m : String) (args : List Expr)           -- x.m(args) as a statement, x such a second name (of a list: `pop`, …)
 inductive Handler where
   | mk (type : Option String) (body : List Stmt)        -- `except:` (none) / `except T:` (some T)
   | mkAs (type : String) (name : String) (body : List Stmt)   -- `except T as name:`
@@ -834,6 +846,8 @@ structure Ctx where
   cls : String := ""
   /-- the dumped methods of that class that are visible (`methIn`: those EARLIER in the dependency order), by name -/
   meths : String → Option MethSem := fun _ => none
+  /-- the attributes of the elements (by number) that the code reads from items of a list of elements: parameters -/
+  elemAttr : Nat → String → Option Val := fun _ _ => none
 
 /-- `x = v` in an association list (the local variables; the fields of an object): an existing binding is replaced where
 it is, a new one is added at the end. -/
@@ -1054,6 +1068,19 @@ def eval (cx : Ctx) (env : Env) : Expr → Except PyErr Val
         | _ => .error (unsupported "object.__getattribute__ of something else than self"))
      | .ok _ => .error .typeError)
   | .outside what => .error (unsupported what)
+  | .elemAttr e a =>
+    (match eval cx env e with
+     | .error err => .error err
+     | .ok (.py (.ancestor u)) => (match cx.elemAttr u a with | some v => .ok v | none => .error (.other "AttributeError"))
+     | .ok _ => .error (unsupported "attribute of an item that is not an element"))
+  | .compFor x elt it =>
+    (match eval cx env it with
+     | .error err => .error err
+     | .ok (.list vs) =>
+       (match collectPy (vs.map (fun v => eval cx (assocSet env x (.py v)) elt)) with
+        | .ok rs => .ok (.list rs)
+        | .error err => .error err)
+     | .ok _ => .error (unsupported "comprehension over something else than a list"))
 def evalList (cx : Ctx) (env : Env) : List Expr → Except PyErr (List Val)
   | [] => .ok []
   | e :: es =>
@@ -1224,6 +1251,20 @@ def execS (cx : Ctx) (env : Env) : Stmt → Env × Res
      | .ok kv =>
        (match env.lookup x with
         | some (.ref o f) => delItemAt env o f kv
+        | some _ => (env, .exc (unsupported "a variable that is not a second name of a field"))
+        | none => (env, .exc (.other "UnboundLocalError"))))
+  | .refCall x m args =>
+    (match evalList cx env args with
+     | .error err => (env, .exc err)
+     | .ok vs =>
+       (match env.lookup x with
+        | some (.ref o f) =>
+          (match getField env o f with
+           | .error err => (env, .exc err)
+           | .ok fv =>
+             (match mutCall fv m vs with
+              | .error err => (env, .exc err)
+              | .ok fv' => ((putField env o f fv').1, .next)))
         | some _ => (env, .exc (unsupported "a variable that is not a second name of a field"))
         | none => (env, .exc (.other "UnboundLocalError"))))
 def execL (cx : Ctx) (env : Env) : List Stmt → Env × Res
